@@ -26,8 +26,12 @@ pub mod vx_hash_ax {
     pub broadcast proof fn axiom_key_model_symbols()
         ensures #[trigger] vstd::std_specs::hash::obeys_key_model::<Vec<Symbol>>(),
     {}
+    #[verifier::external_body]
+    pub broadcast proof fn axiom_key_model_transition()
+        ensures #[trigger] vstd::std_specs::hash::obeys_key_model::<crate::data::machine::Transition>(),
+    {}
     pub broadcast group group_key_models {
-        axiom_key_model_string, axiom_key_model_action_key, axiom_key_model_goto_key, axiom_key_model_str, axiom_key_model_symbols,
+        axiom_key_model_transition, axiom_key_model_string, axiom_key_model_action_key, axiom_key_model_goto_key, axiom_key_model_str, axiom_key_model_symbols,
     }
     }
 }
